@@ -84,6 +84,7 @@ PROPS = {
         'thorough': [r'c01_\w+'],
         'cap': {'quick': 600, 'thorough': 1800},
         'per_harness': {r'c01_\w+': {'unwindset': 'memcmp.0:200'}},
+        'jobs': 8, 'mem_gb': 16,
         'functions': ['format::SerializedBiscuit::verify_inner', 'crypto::{verify_authority_block_signature,verify_block_signature,verify_external_signature}',
                       'crypto::generate_*_signature_payload_{v0,v1}', 'crypto::generate_seal_signature_payload_v0'],
         'bounds': 'tokens of 1..3 blocks; signature versions 0, 1 and 2 (unknown); external signature present/absent; sealed / unsealed; ed25519 and secp256r1 key objects as next keys; block payloads of 2 bytes, signatures of 3 bytes, all bytes and all key objects symbolic; every answer of the signature primitive symbolic',
@@ -137,6 +138,18 @@ PROPS = {
         'bounds': 'as C01 / C02 for blocks carrying an external signature: acceptance requires the stated external key to accept (payload + signature of the actual previous block, version 1); the request carries exactly the last signature; the token-level signature of a third-party block covers the external signature bytes',
         'stubs': ['signature oracle', 'alloc::fmt::format'],
         'out': 'symbol / public-key table isolation of third-party blocks, create_block and append_third_party (protobuf payloads), trust through key scopes (C03 kernel), request/response byte manipulation',
+    },
+    'C05': {
+        'crate': 'biscuit-auth',
+        'quick': [r'c05_\w+'],
+        'thorough': [],
+        'cap': {'quick': 400, 'thorough': 1200},
+        'functions': ['datalog::match_preds', 'datalog::origin::Origin::{insert,union,is_superset}'],
+        'bounds': 'unification of one rule predicate with one fact predicate: every pair of term types (10 x 10, except two collections of the same kind) with symbolic names and payloads, arities 0..2; '
+                  'origin sets over block ids 0..5 and the authorizer id (64-bit mask model)',
+        'out': 'the immediate-consequence operator itself (Rule::apply / CombineIt), the fixpoint loop (World::run_with_limits), order independence, completeness of the iteration: '
+               'symbolic execution of the join iterator did not finish (boxed iterator chains, per-binding hash maps of enum values; see DESIGN.md C05) - only the unification and provenance kernels are decided',
+        'level_text': 'Kernel only (unification of a predicate with a fact; union of origin sets): bounded symbolic execution against an independent specification. The least-fixpoint claim itself is NOT decided by this check.',
     },
 }
 
